@@ -258,3 +258,21 @@ mod test {
         ));
     }
 }
+
+// Verification hook H3 (read-only, add-only): see page_store/verif/snapshot.rs
+#[cfg(redb_verif)]
+impl Savepoint {
+    /// (savepoint id, transaction id, version, data root) of this savepoint
+    pub fn verif_record(&self) -> crate::verif::VSavepointRecord {
+        crate::verif::VSavepointRecord {
+            id: self.id.0,
+            transaction_id: self.transaction_id.raw_id(),
+            version: self.version,
+            data_root: crate::verif::VRoot::opt(self.user_root),
+        }
+    }
+
+    pub fn verif_is_ephemeral(&self) -> bool {
+        self.ephemeral
+    }
+}
